@@ -35,12 +35,16 @@ struct C14 : Scenario {
         o.max_rot_steps = tier == "quick" ? 5 : 9;
         Cfg c = swarm_cfg(r, o);
         if (r.chance(0.3)) vary_machine(r, c);
+        if (r.chance(0.25)) { wild_cfg(r, c); p.seti("wild", 1); }
         if (c.outstep > 6) c.outstep = r.pick(std::vector<long>{1, 2, 3});
         if (c.currents.size() > 1) { c.padding = std::min(c.padding, 2.0); }
         if (o.allow_tracking && r.chance(0.4)) {
             c.tracking = "track.txt";
             plan_file(p, "track.txt", gen_tracking(r, c, r.range(1, 4)));
         }
+        // a run that keeps no results (no output file, run_anyway): the interrupt still has to end it after the step in progress,
+        // with the report and a successful exit; the file clauses do not apply
+        if (r.chance(0.12)) p.seti("nofile", 1);
         c.to_plan(p);
         p.setu("entropy", r.u64());
         p.seti("planner", 0);
@@ -177,7 +181,57 @@ struct C14 : Scenario {
     }
     static std::string iname(const Instant& i) { return std::string(1, i.kind) + std::to_string(i.idx); }
 
+    // runs without a results file: clauses 1 (exit), 2 (report), 4 (steps) at every hook point
+    Outcome run_nofile(const Plan& plan, RunCtx& rc) const {
+        Outcome o;
+        Cfg cfg = Cfg::from_plan(plan);
+        Derived d = derive(cfg);
+        stage_inputs(plan, rc.workdir);
+        cfg.output = ""; cfg.extra = {"--run_anyway", "true"};
+        uint64_t entropy = plan.getu("entropy");
+        Launch l0 = make_launch(cfg, rc.workdir, "U", entropy, 0);
+        LaunchResult u = run_launch(l0);
+        long nl = 1;
+        if (!u.clean_exit() || u.code != 0 || !u.has_summary || (unsigned)u.sumi("steps_done") != d.laststep || !log_has(u.out, "Finished.")) { o.set_infra("uninterrupted run without results file failed: " + u.describe() + " " + tail(u.err) + tail(u.out, 200)); return o; }
+        long H = u.sumi("point_hits");
+        std::string only = plan.get("only");
+        std::vector<long> pts;
+        if (!only.empty()) { for (auto& t : split(only, ',')) if (!t.empty()) pts.push_back(H > 0 ? atol(t.c_str() + 1) % H : 0); }
+        else for (long k = 0; k < H; k++) pts.push_back(k);
+        for (long k : pts) {
+            Launch l = make_launch(cfg, rc.workdir, "I", entropy, 0);
+            l.rt.sigint_points = {k};
+            LaunchResult r = run_launch(l); nl++; o.checks++;
+            std::string name = "p" + std::to_string(k);
+            auto bad = [&](const std::string& clause, const std::string& msg) { if (!o.has(clause)) o.hints["only"] = name; o.fail(clause, "no results file kept, interrupt at [" + name + "]: " + msg); };
+            if (!r.exited) { bad("C14.exit", "process died: " + r.describe() + " stderr: " + tail(r.err)); continue; }
+            if (r.code != 0) { bad("C14.exit", "exit status " + std::to_string(r.code) + " stderr: " + tail(r.err)); continue; }
+            if (!r.has_summary || r.raised.empty()) { o.set_infra("signal was not raised for " + name); break; }
+            auto f = split(r.raised[0], ':');
+            if (f.size() < 8) { o.set_infra("bad raised record"); break; }
+            std::string phase = f[5];
+            o.probe("cls.nofile.sig." + f[1] + "." + phase);
+            o.fault("sigint_point");
+            unsigned expect_j = phase == "setup" ? 0 : phase == "loop" ? (unsigned)atol(f[3].c_str()) : d.laststep;
+            unsigned got_j = (unsigned)r.sumi("steps_done");
+            if (got_j != expect_j) bad("C14.steps", "executed " + std::to_string(got_j) + " steps, model (finish the step in progress, no more) says " + std::to_string(expect_j));
+            bool before_report = f[7] == "0";
+            bool ab = log_has(r.out, "Aborted."), fin = log_has(r.out, "Finished.");
+            if (before_report) { if (!ab) bad("C14.aborted_msg", "no 'Aborted.' on stdout; tail: " + tail(r.out, 200)); if (fin) bad("C14.aborted_msg", "'Finished.' reported for an interrupted run"); }
+            else if (!ab && !fin) bad("C14.aborted_msg", "neither Aborted. nor Finished. reported");
+            o.mixfp(r.evhash());
+        }
+        o.probe("reach.no_results_file");
+        o.launches = nl; o.simsteps = launch_stats().steps;
+        o.shape = "nofileH" + std::to_string(H);
+        o.nontrivial = H > 30;
+        o.probes["enum.points"] += only.empty() ? H : 0;
+        o.sample = cfg.summary() + " (no results file) H=" + std::to_string(H);
+        return o;
+    }
+
     Outcome run(const Plan& plan, RunCtx& rc) const override {
+        if (plan.geti("nofile", 0)) return run_nofile(plan, rc);
         Outcome o;
         Ctx x;
         x.plan = &plan; x.rc = &rc; x.o = &o;
